@@ -41,7 +41,85 @@ func init() {
 	}
 }
 
+// nearcoll: structured near-collision search around one position. Positions that differ from p in the kind or
+// colour of one or two squares (all pairs among the eight highest squares of the board, plus sampled pairs) and/or
+// in the side to move must not share p's Hash(). Like the census this runs on the Go side only.
+func nearColl(p *tak.Position, r *RNG) string {
+	raw := p.VerifRaw()
+	n := p.Size() * p.Size()
+	h0 := p.Hash()
+	var occ []int
+	for i := 0; i < n; i++ {
+		if raw.Height[i] > 0 {
+			occ = append(occ, i)
+		}
+	}
+	type pair struct{ a, b int }
+	var pairs []pair
+	for a := 0; a < len(occ); a++ {
+		for b := a; b < len(occ); b++ {
+			if occ[a] >= n-8 && occ[b] >= n-8 || r.Chance(1, 40) {
+				pairs = append(pairs, pair{occ[a], occ[b]})
+			}
+		}
+	}
+	tried := 0
+	for _, pr := range pairs {
+		for kind := 0; kind < 3; kind++ {
+			for flip := 0; flip < 2; flip++ {
+				q := raw
+				q.Height = append([]uint8(nil), raw.Height...)
+				q.Stacks = append([]uint64(nil), raw.Stacks...)
+				m := uint64(1)<<uint(pr.a) | uint64(1)<<uint(pr.b)
+				switch kind {
+				case 0:
+					q.Caps ^= m
+					q.Standing &^= q.Caps
+				case 1:
+					q.Standing ^= m
+					q.Caps &^= q.Standing
+				case 2:
+					q.White ^= m
+					q.Black ^= m
+				}
+				if flip == 1 {
+					q.Move++
+				}
+				qp := tak.VerifFromRaw(q)
+				tried++
+				if qp.Hash() == h0 && !qp.Equal(p) {
+					return fmt.Sprintf("COLLISION squares=%d,%d kind=%d flip=%d", pr.a, pr.b, kind, flip)
+				}
+			}
+		}
+	}
+	return "collisions=0"
+}
+
+func init() {
+	opTable["nearcoll"] = func(s *Session, a []string) string {
+		return nearColl(decPos(a[0]), NewRNG(atou(a[1])))
+	}
+}
+
 func genCensus(c *Ctx) {
+	// near-collision search on full-ish boards of every size (8x8 uses bits 62/63)
+	nn := 60
+	if c.Thorough() {
+		nn = 3000
+	}
+	for i := 0; i < nn; i++ {
+		size := 3 + c.R.Intn(6)
+		var p *tak.Position
+		if c.R.Chance(1, 2) {
+			p = constructed(c.R, size)
+		} else {
+			p = groupsBoard(c.R, size)
+		}
+		c.Emit(fmt.Sprintf("nearcoll %s %d", encPos(p), c.R.Next()))
+		c.Count("nearcoll.size" + fmt.Sprint(size))
+	}
+
 	n := 20000
 	if c.Thorough() {
 		n = 600000
